@@ -22,13 +22,27 @@ import (
 
 // ---- programs --------------------------------------------------------------
 
-// hop is one client operation: a plain command or a script whose body is a
-// sequence of tile38.pcall(...) of the inner commands, returning the last
-// result.
+// hop is one client operation:
+//
+//	cmd    a plain command (Timeout: prefixed with TIMEOUT n; a TIMEOUT-wrapped
+//	       write is refused by the server without any effect)
+//	eval / evalna / evalro
+//	       a script whose body is a sequence of tile38.pcall(...) of the inner
+//	       commands, returning the last result; Sha: sent as EVALSHA & co of
+//	       the pre-loaded text; Timeout: prefixed with TIMEOUT n; SpinUs: the
+//	       script busy-waits that long between two calls (a slow script)
+//	incr   a read-modify-write script: n = FGET kc c n; SET kc c FIELD n n+1
+//	       POINT <Args>; return n+1 (EVAL or EVALSHA, possibly TIMEOUT-wrapped)
+//	pipe   several reads written to the socket in ONE segment; their replies
+//	       come back together after the last one was executed
 type hop struct {
-	Kind  string     `json:"kind"` // "cmd", "eval", "evalna", "evalro"
-	Args  []string   `json:"args,omitempty"`
-	Inner [][]string `json:"inner,omitempty"`
+	Kind    string     `json:"kind"`
+	Args    []string   `json:"args,omitempty"`
+	Inner   [][]string `json:"inner,omitempty"`
+	Reads   [][]string `json:"reads,omitempty"`
+	Timeout bool       `json:"timeout,omitempty"`
+	Sha     bool       `json:"sha,omitempty"`
+	SpinUs  int        `json:"spin_us,omitempty"`
 }
 
 type hprogram struct {
@@ -37,9 +51,10 @@ type hprogram struct {
 }
 
 type hobs struct {
-	Send  int64     `json:"send_ns"`
-	Recv  int64     `json:"recv_ns"`
-	Reply t38.Value `json:"reply"`
+	Send    int64       `json:"send_ns"`
+	Recv    int64       `json:"recv_ns"`
+	Reply   t38.Value   `json:"reply"`
+	Replies []t38.Value `json:"replies,omitempty"` // pipe
 }
 
 type historyReplay struct {
@@ -49,11 +64,28 @@ type historyReplay struct {
 	Final   *t38.Dump  `json:"final_dump,omitempty"`
 }
 
-func scriptText(inner [][]string) string {
+// timeoutSec is the TIMEOUT budget of wrapped operations: far above anything
+// a history needs, so the deadline itself never fires.
+const timeoutSec = "25"
+
+// counter object of the incr scripts; no generated command names this key.
+const counterKey = "kc"
+
+func spinText(us int) string {
+	if us <= 0 {
+		return ""
+	}
+	return fmt.Sprintf("do local t0 = os.clock() while os.clock() - t0 < %g do end end\n", float64(us)/1e6)
+}
+
+func scriptText(inner [][]string, spinUs int) string {
 	var b strings.Builder
 	b.WriteString("local r\n")
 	idx := 1
-	for _, c := range inner {
+	for n, c := range inner {
+		if n > 0 {
+			b.WriteString(spinText(spinUs))
+		}
 		b.WriteString("r = tile38.pcall(")
 		for j := range c {
 			if j > 0 {
@@ -68,11 +100,56 @@ func scriptText(inner [][]string) string {
 	return b.String()
 }
 
-func (o hop) wire() []string {
-	if o.Kind == "cmd" {
-		return o.Args
+func incrText(spinUs int) string {
+	return "local r = tile38.pcall('FGET','" + counterKey + "','c','n')\n" +
+		"local v = tonumber(r) or 0\n" + spinText(spinUs) +
+		"v = v + 1\n" +
+		"tile38.call(ARGV[1],'" + counterKey + "','c','FIELD','n',tostring(v),'POINT',ARGV[2],ARGV[3])\n" +
+		"return v"
+}
+
+// text is the Lua source of a script operation ("" for the others).
+func (o hop) text() string {
+	switch o.Kind {
+	case "eval", "evalna", "evalro":
+		return scriptText(o.Inner, o.SpinUs)
+	case "incr":
+		return incrText(o.SpinUs)
 	}
-	out := []string{strings.ToUpper(o.Kind), scriptText(o.Inner), "0"}
+	return ""
+}
+
+// wire is the command as sent ("pipe" operations are sent by wirePipe).
+func (o hop) wire() []string {
+	var out []string
+	if o.Timeout {
+		out = append(out, "TIMEOUT", timeoutSec)
+	}
+	switch o.Kind {
+	case "cmd":
+		return append(out, o.Args...)
+	case "pipe":
+		for i, r := range o.Reads {
+			if i > 0 {
+				out = append(out, "|")
+			}
+			out = append(out, r...)
+		}
+		return out
+	}
+	verb := strings.ToUpper(o.Kind)
+	if o.Kind == "incr" {
+		verb = "EVAL"
+	}
+	txt := o.text()
+	if o.Sha {
+		out = append(out, verb+"SHA", sha1hex(txt), "0")
+	} else {
+		out = append(out, verb, txt, "0")
+	}
+	if o.Kind == "incr" {
+		return append(out, o.Args...)
+	}
 	for _, c := range o.Inner {
 		out = append(out, c...)
 	}
@@ -118,6 +195,8 @@ func clientOfName(name string) int {
 }
 
 func argsKey(args []string) string { return strings.Join(args, "\x00") }
+
+func incrKey(name, lat, lon string) string { return "\x00incr\x00" + name + "\x00" + lat + "\x00" + lon }
 
 type tagger struct {
 	client int
@@ -194,34 +273,80 @@ func modelled(cmd []string) bool {
 	return !model.Exec(model.NewDB(), cmd).Unsupported
 }
 
+func isReadCmd(cmd []string) bool { return !model.IsWrite(cmd[0]) }
+
 func drawHProgram(rt *rapid.T, maxClients, maxOps int) hprogram {
 	var p hprogram
 	p.Spin = rapid.Bool().Draw(rt, "spinlock")
 	n := rapid.IntRange(2, maxClients).Draw(rt, "clients")
 	plain := rapid.Custom(func(t *rapid.T) []string { return retarget(t, gen.KeyspaceCmd(t, gen.SmallNames)) }).Filter(modelled)
 	inner := plain.Filter(scriptable)
+	// (no rapid Filter here: reads are a third of the alphabet, and a filter
+	// that gives up discards the whole case, which skews towards small ones)
+	reads := rapid.Custom(func(t *rapid.T) []string {
+		for i := 0; i < 40; i++ {
+			if c := plain.Draw(t, "candidate"); isReadCmd(c) {
+				return c
+			}
+		}
+		return []string{"SCAN", "k1"}
+	})
+	chance := func(label string, outOf int) bool { return rapid.IntRange(0, outOf-1).Draw(rt, label) == 0 }
+	spin := func() int {
+		if chance("spin?", 8) {
+			return rapid.SampledFrom([]int{200, 1000, 3000}).Draw(rt, "spin_us")
+		}
+		return 0
+	}
 	for ci := 0; ci < n; ci++ {
 		tg := &tagger{client: ci, used: map[string]int{}}
 		nops := rapid.IntRange(3, maxOps).Draw(rt, "nops")
 		var ops []hop
 		for i := 0; i < nops; i++ {
-			kind := rapid.IntRange(0, 19).Draw(rt, "opkind")
+			kind := rapid.IntRange(0, 23).Draw(rt, "opkind")
 			switch {
-			case kind < 16:
-				if c, ok := tg.tag(plain.Draw(rt, "cmd")); ok {
-					ops = append(ops, hop{Kind: "cmd", Args: c})
+			case kind < 14:
+				cmd := plain.Draw(rt, "cmd")
+				if model.IsWrite(cmd[0]) && chance("timeout-write?", 12) {
+					// refused without effect: never logged, needs no tag
+					ops = append(ops, hop{Kind: "cmd", Args: cmd, Timeout: true})
+					continue
 				}
-			default:
-				o := hop{Kind: map[int]string{16: "eval", 17: "eval", 18: "evalna", 19: "evalro"}[kind]}
-				ni := rapid.IntRange(1, 3).Draw(rt, "ninner")
+				if c, ok := tg.tag(cmd); ok {
+					ops = append(ops, hop{Kind: "cmd", Args: c, Timeout: !model.IsWrite(cmd[0]) && chance("timeout-read?", 5)})
+				}
+			case kind < 16:
+				o := hop{Kind: "pipe"}
+				nr := rapid.IntRange(2, 4).Draw(rt, "nreads")
+				for j := 0; j < nr; j++ {
+					o.Reads = append(o.Reads, reads.Draw(rt, "read"))
+				}
+				ops = append(ops, o)
+			case kind < 22:
+				o := hop{Kind: map[int]string{16: "eval", 17: "eval", 18: "eval", 19: "eval", 20: "evalna", 21: "evalro"}[kind]}
+				ni := rapid.IntRange(1, 4).Draw(rt, "ninner")
 				for j := 0; j < ni; j++ {
 					if c, ok := tg.tag(inner.Draw(rt, "inner")); ok {
 						o.Inner = append(o.Inner, c)
 					}
 				}
-				if len(o.Inner) > 0 {
-					ops = append(ops, o)
+				if len(o.Inner) == 0 {
+					continue
 				}
+				o.Timeout = chance("timeout-script?", 2)
+				if o.Kind == "evalna" {
+					o.Timeout = chance("timeout-evalna?", 4)
+				}
+				o.Sha = chance("sha?", 3)
+				o.SpinUs = spin()
+				ops = append(ops, o)
+			default:
+				name, _ := spell("set", ci, 0)
+				o := hop{Kind: "incr", Args: []string{name, fmt.Sprint(len(ops)), fmt.Sprint(ci)}}
+				o.Timeout = !chance("plain-incr?", 3)
+				o.Sha = chance("sha?", 3)
+				o.SpinUs = spin()
+				ops = append(ops, o)
 			}
 		}
 		p.Clients = append(p.Clients, ops)
@@ -283,6 +408,18 @@ func runHistory(p hprogram) (obs [][]hobs, log [][]string, final *t38.Dump, err 
 	if v, e := h.ctl.Do("FLUSHDB"); e != nil || v.IsErr() {
 		return nil, nil, nil, fmt.Errorf("FLUSHDB: %v %s", e, v)
 	}
+	// the texts of the operations that are sent by digest
+	loaded := map[string]bool{}
+	for _, cl := range p.Clients {
+		for _, o := range cl {
+			if txt := o.text(); o.Sha && !loaded[txt] {
+				loaded[txt] = true
+				if v, e := h.ctl.Do("SCRIPT", "LOAD", txt); e != nil || v.IsErr() {
+					return nil, nil, nil, fmt.Errorf("SCRIPT LOAD: %v %s", e, v)
+				}
+			}
+		}
+	}
 	st, e := os.Stat(h.srv.AOFPath())
 	if e != nil {
 		return nil, nil, nil, e
@@ -302,6 +439,31 @@ func runHistory(p hprogram) (obs [][]hobs, log [][]string, final *t38.Dump, err 
 			<-start
 			for oi, o := range p.Clients[ci] {
 				w := o.wire()
+				if o.Kind == "pipe" {
+					var buf []byte
+					for _, rd := range o.Reads {
+						buf = append(buf, t38.EncodeCmd(rd...)...)
+					}
+					t38.JournalNote("pipelined: " + t38.CmdString(w))
+					s := time.Since(base)
+					e := c.SendRaw(buf)
+					var vs []t38.Value
+					for range o.Reads {
+						if e != nil {
+							break
+						}
+						var v t38.Value
+						v, e = c.Recv()
+						vs = append(vs, v)
+					}
+					r := time.Since(base)
+					if e != nil {
+						errs[ci] = fmt.Errorf("client %d op %d %s: %v", ci, oi, t38.CmdString(w), e)
+						return
+					}
+					obs[ci][oi] = hobs{Send: int64(s), Recv: int64(r), Replies: vs}
+					continue
+				}
 				s := time.Since(base)
 				v, e := c.Do(w...)
 				r := time.Since(base)
@@ -359,6 +521,7 @@ type hstats struct {
 	multiObjConcurrentWithRead  bool
 	atomicGroups, evalnaSplit   int
 	loggedNoop, unsupported     int
+	timeoutOps, pipes, incrs    int
 	abstract                    string
 }
 
@@ -449,7 +612,11 @@ func checkHistory(p hprogram, obs [][]hobs, log [][]string, final *t38.Dump) (*h
 	}
 	opName := func(ci, oi int) string {
 		o := p.Clients[ci][oi]
-		return fmt.Sprintf("client %d op %d %s [%.3f,%.3f]ms -> %.200s", ci, oi, t38.CmdString(o.wire()), float64(obs[ci][oi].Send)/1e6, float64(obs[ci][oi].Recv)/1e6, obs[ci][oi].Reply.String())
+		rep := obs[ci][oi].Reply.String()
+		if o.Kind == "pipe" {
+			rep = fmt.Sprint(obs[ci][oi].Replies)
+		}
+		return fmt.Sprintf("client %d op %d %s [%.3f,%.3f]ms -> %.300s", ci, oi, t38.CmdString(o.wire()), float64(obs[ci][oi].Send)/1e6, float64(obs[ci][oi].Recv)/1e6, rep)
 	}
 	// units that can be logged
 	units := map[string]*unit{}
@@ -466,11 +633,20 @@ func checkHistory(p hprogram, obs [][]hobs, log [][]string, final *t38.Dump) (*h
 			}
 			switch o.Kind {
 			case "cmd":
-				add(-1, o.Args)
+				if !o.Timeout { // a TIMEOUT-wrapped write must never reach the log
+					add(-1, o.Args)
+				}
 			case "eval", "evalna":
 				for j, c := range o.Inner {
 					add(j, c)
 				}
+			case "incr":
+				u := &unit{client: ci, op: oi, inner: 0, pos: -1}
+				units[incrKey(o.Args[0], o.Args[1], o.Args[2])] = u
+				opUnits[[2]int{ci, oi}] = append(opUnits[[2]int{ci, oi}], u)
+			}
+			if o.Timeout {
+				st.timeoutOps++
 			}
 		}
 	}
@@ -478,6 +654,12 @@ func checkHistory(p hprogram, obs [][]hobs, log [][]string, final *t38.Dump) (*h
 	owner := make([]*unit, n)
 	for pos, e := range log {
 		u := units[argsKey(e)]
+		if u == nil && len(e) == 9 && e[1] == counterKey {
+			// the write of an incr script: its value is computed by the script
+			if u = units[incrKey(e[0], e[7], e[8])]; u != nil && u.pos == -1 {
+				u.args = e
+			}
+		}
 		if u == nil {
 			return viol("log-entry-unknown", "log position %d holds %s, which no client issued as a write (client tag %d)", pos, t38.CmdString(e), clientOfName(e[0]))
 		}
@@ -625,6 +807,12 @@ func checkHistory(p hprogram, obs [][]hobs, log [][]string, final *t38.Dump) (*h
 				st.reads++
 				lo, hi := window(ci, oi)
 				f := func(db *model.DB) string {
+					if o.Timeout && model.IsWrite(o.Args[0]) {
+						if !ob.Reply.IsErr() {
+							return fmt.Sprintf("got %s, but TIMEOUT is not supported for a write", ob.Reply)
+						}
+						return ""
+					}
 					r := model.Exec(db, o.Args)
 					if r.Unsupported {
 						return unsup
@@ -643,6 +831,57 @@ func checkHistory(p hprogram, obs [][]hobs, log [][]string, final *t38.Dump) (*h
 				}
 				if cands > 1 {
 					st.wideWindows++
+				}
+			case "pipe":
+				// the reads are executed one after the other: non-decreasing
+				// prefix lengths, each admissible (the smallest feasible one
+				// is chosen, which leaves the most room for the next read)
+				st.pipes++
+				st.reads += len(o.Reads)
+				lo, hi := window(ci, oi)
+				for ri, rd := range o.Reads {
+					got := ob.Replies[ri]
+					f := func(db *model.DB) string {
+						r := model.Exec(db, rd)
+						if r.Unsupported {
+							return unsup
+						}
+						return r.CheckRESP(got)
+					}
+					found := -1
+					why := fmt.Sprintf("window [%d,%d] holds no admissible prefix", lo, hi)
+					for k := lo; k <= hi; k++ {
+						if inside[k] {
+							continue
+						}
+						d := f(S[k].Clone())
+						if d == "" || d == unsup {
+							if d == unsup {
+								st.unsupported++
+							}
+							found = k
+							break
+						}
+						why = fmt.Sprintf("at prefix %d: %s", k, d)
+					}
+					if found < 0 {
+						return viol("no-linearization-point:pipelined-read", "%s: read %d (%s -> %.200s) of the pipelined segment has no admissible prefix length in [%d,%d] (the window left by the reads before it), outside atomic scripts (%s; %s)", opName(ci, oi), ri, t38.CmdString(rd), got.String(), lo, hi, why, elsewhere(lo, hi, f))
+					}
+					lo = found
+				}
+			case "incr":
+				st.incrs++
+				u := us[0]
+				if u.pos < 0 {
+					return viol("incr-not-logged", "%s: the SET of the increment script is not in the log", opName(ci, oi))
+				}
+				before := 0
+				if r := model.Exec(S[u.pos].Clone(), []string{"FGET", counterKey, "c", "n"}); r.RESP.Kind == '$' && !r.RESP.Null {
+					fmt.Sscan(r.RESP.Str, &before)
+				}
+				want := fmt.Sprint(before + 1)
+				if log[u.pos][5] != want || ob.Reply.Kind != ':' || fmt.Sprint(ob.Reply.Int) != want {
+					return viol("lost-update", "%s: the read-modify-write script is logged at position %d, where the counter is %d: it must store and return %s, but it stored %s and returned %s", opName(ci, oi), u.pos, before, want, log[u.pos][5], ob.Reply)
 				}
 			case "eval", "evalro":
 				var ps []int
@@ -772,6 +1011,12 @@ func checkHistory(p hprogram, obs [][]hobs, log [][]string, final *t38.Dump) (*h
 			if o.Kind == "cmd" {
 				sp.keys = keysOf(o.Args)
 				sp.multi = nlogged > 0 && multiObject(o.Args)
+			} else if o.Kind == "incr" {
+				sp.keys = []string{counterKey}
+			} else if o.Kind == "pipe" {
+				for _, c := range o.Reads {
+					sp.keys = append(sp.keys, keysOf(c)...)
+				}
 			} else {
 				for _, c := range o.Inner {
 					sp.keys = append(sp.keys, keysOf(c)...)
@@ -875,6 +1120,20 @@ func porcupineModel(p hprogram, obs [][]hobs) (porcupine.Model, []porcupine.Oper
 				return true, next(s, db)
 			}
 			got := output.(t38.Value)
+			if o.Kind == "cmd" && o.Timeout && model.IsWrite(o.Args[0]) {
+				return got.IsErr(), s
+			}
+			if o.Kind == "incr" {
+				before := 0
+				if r := model.Exec(db, []string{"FGET", counterKey, "c", "n"}); r.RESP.Kind == '$' && !r.RESP.Null {
+					fmt.Sscan(r.RESP.Str, &before)
+				}
+				if got.Kind != ':' || got.Int != int64(before+1) {
+					return false, s
+				}
+				model.Exec(db, []string{"SET", counterKey, "c", "FIELD", "n", fmt.Sprint(before + 1), "POINT", o.Args[1], o.Args[2]})
+				return true, next(s, db)
+			}
 			if o.Kind == "cmd" {
 				r := model.Exec(db, o.Args)
 				if r.Unsupported {
@@ -903,6 +1162,14 @@ func porcupineModel(p hprogram, obs [][]hobs) (porcupine.Model, []porcupine.Oper
 	var ops []porcupine.Operation
 	for ci, cl := range p.Clients {
 		for oi, o := range cl {
+			if o.Kind == "pipe" {
+				// every read is its own step inside the segment's interval
+				// (their order is left free: a relaxation)
+				for ri, rd := range o.Reads {
+					ops = append(ops, porcupine.Operation{ClientId: ci, Input: pcIn{hop{Kind: "cmd", Args: rd}}, Call: obs[ci][oi].Send, Output: obs[ci][oi].Replies[ri], Return: obs[ci][oi].Recv})
+				}
+				continue
+			}
 			if o.Kind == "evalna" {
 				// every call is its own step inside the script's interval;
 				// the order among them is left free (a relaxation: porcupine
@@ -979,6 +1246,9 @@ func historyCase(t ev.Failer, c *ev.Collector, p hprogram, porcu bool) {
 	c.LabelN("undecided-model-unsupported-shape", st.unsupported)
 	c.LabelN("logged-but-model-noop", st.loggedNoop)
 	c.LabelN("evalna-interleaved-with-foreign-writes", st.evalnaSplit)
+	c.LabelN("timeout-wrapped-ops", st.timeoutOps)
+	c.LabelN("pipelined-read-segments", st.pipes)
+	c.LabelN("increment-scripts", st.incrs)
 	c.Label(fmt.Sprintf("clients:%d", len(p.Clients)))
 	if p.Spin {
 		c.Label("lock:spin")
